@@ -167,6 +167,17 @@ def fam_trace(rng):
     return dict(exec=dict(kind="plain", max_workers=maxw, timeout=rng.choice([None, None, 0.5])), users={"u1": u1}, fam="trace")
 
 
+def fam_stalled_manager(rng):
+    """the manager thread is unavailable for longer than the 30 s exit handshake (a slow done-callback runs in it) while idle
+    workers time out: they leave on their own, cleanly, and nobody may take that for a crash"""
+    maxw = rng.choice([2, 2, 3])
+    u1 = [["submit", 1, "ok"], ["callback_slow", 1, 33.0]]
+    for i in range(2, rng.randint(2, 4) + 1):
+        u1.append(["submit", i, "ok"])
+    u1 += [["wait_all"], ["settle"], ["submit", 50, "ok"], ["wait", 50], ["settle"], ["submit", 91, "ok"], ["wait", 91], ["shutdown", True, False]]
+    return dict(exec=dict(kind=rng.choice(["plain", "reusable"]), max_workers=maxw, timeout=0.5), users={"u1": u1}, fam="stalled_manager")
+
+
 def fam_memleak(rng):
     """workers that leave because their memory grew (psutil branch): a clean, announced exit after any task, replaced by the
     manager while work is pending -- invisible to the user like an idle-timeout exit"""
@@ -185,7 +196,7 @@ def fam_memleak(rng):
     else:
         u1 += [["wait_all"], ["settle"], ["submit", 91, "ok"], ["wait", 91], ["shutdown", True, False]]
     return dict(exec=dict(kind=rng.choice(["plain", "plain", "reusable"]), max_workers=maxw, timeout=rng.choice([None, 0.5]),
-                          leak_after=rng.choice([1, 1, 2, 3])), users={"u1": u1}, fam="memleak")
+                          leak_after=rng.choice([1, 1, 2, 3]), no_exitcode=rng.random() < 0.2), users={"u1": u1}, fam="memleak")
 
 
 def fam_respawn_crash(rng):
@@ -306,7 +317,7 @@ def fam_timeout(rng):
     if rng.random() < 0.3:
         users["u2"] = [["submit", 50, "ok"], ["sleep", 1.0], ["submit", 51, "ok"], ["wait", 50], ["wait", 51]]
         u1.insert(len(u1) - 1, ["wait_all"])
-    return dict(exec=dict(kind="plain", max_workers=maxw, timeout=0.5), users=users, fam="timeout")
+    return dict(exec=dict(kind="plain", max_workers=maxw, timeout=0.5, no_exitcode=rng.random() < 0.2), users=users, fam="timeout")
 
 
 def fam_saturation(rng):
@@ -393,7 +404,7 @@ def fam_reusable(rng):
     return dict(exec=dict(kind="reusable", max_workers=m0, timeout=tmo), users=users, fam="reusable")
 
 
-FAMILIES = dict(memleak=fam_memleak, resize_crash=fam_resize_crash, resize_saturation=fam_resize_saturation, trace=fam_trace, crash_shutdown=fam_crash_shutdown, callback=fam_callback, resize_partial=fam_resize_partial, resize_wait=fam_resize_wait, map=fam_map, reusable=fam_reusable, respawn_crash=fam_respawn_crash, mixed=fam_mixed, crash=fam_crash, kill=fam_kill, timeout=fam_timeout, saturation=fam_saturation, init=fam_init)
+FAMILIES = dict(stalled_manager=fam_stalled_manager, memleak=fam_memleak, resize_crash=fam_resize_crash, resize_saturation=fam_resize_saturation, trace=fam_trace, crash_shutdown=fam_crash_shutdown, callback=fam_callback, resize_partial=fam_resize_partial, resize_wait=fam_resize_wait, map=fam_map, reusable=fam_reusable, respawn_crash=fam_respawn_crash, mixed=fam_mixed, crash=fam_crash, kill=fam_kill, timeout=fam_timeout, saturation=fam_saturation, init=fam_init)
 
 
 def policies(rng, fam):
